@@ -56,3 +56,36 @@ def lookup_key_is(expr, name):
     if any(isinstance(x, ast.Name) and x.id == name for x in sides):
         return off
     return None
+
+
+def lookup_defect(expr):
+    """A look-up of the index_lookup family that is readable and NOT "the position of the key": the comparison is not ==,
+    or an element other than the first match is taken.  -> description, or None (exact, or not of this family)."""
+    core = expr
+    while isinstance(core, ast.BinOp) and isinstance(core.op, (ast.Add, ast.Sub)):
+        core = core.left
+    while isinstance(core, ast.Call) and isinstance(core.func, ast.Name) and core.func.id == "int" and len(core.args) == 1:
+        core = core.args[0]
+    picks = []
+    while isinstance(core, ast.Subscript):
+        sl = core.slice
+        if isinstance(sl, ast.Constant) and isinstance(sl.value, int):
+            picks.append((sl.value,))
+        elif isinstance(sl, ast.Tuple) and all(isinstance(e, ast.Constant) and isinstance(e.value, int) for e in sl.elts):
+            picks.append(tuple(e.value for e in sl.elts))
+        else:
+            return None
+        core = core.value
+    if not isinstance(core, ast.Call):
+        return None
+    fn = core.func.attr if isinstance(core.func, ast.Attribute) else (core.func.id if isinstance(core.func, ast.Name) else None)
+    if fn not in ("argwhere", "nonzero", "where", "flatnonzero") or len(core.args) != 1 or not isinstance(core.args[0], ast.Compare) \
+            or len(core.args[0].ops) != 1:
+        return None
+    op = core.args[0].ops[0]
+    if not isinstance(op, ast.Eq):
+        return "positions where the array is %s the key, not where it equals it" % {ast.NotEq: "different from", ast.Lt: "below", ast.LtE: "at or below",
+                                                                                   ast.Gt: "above", ast.GtE: "at or above"}.get(type(op), "compared otherwise with")
+    if any(any(v != 0 for v in p) for p in picks):
+        return "element %s of the matches, not the first match" % ", ".join(str(list(p)) for p in reversed(picks))
+    return None
